@@ -388,6 +388,86 @@ DEFS = {
             try:
 """),
     ],
+    "mutants/c04_fix_lazy_error_of_violated_group_reverted": [
+        # the error of every violated group is created at once again (sync)
+        (CHK, """            if not_check(check=check, contract=contract):
+                violated = contract
+                break
+""", """            if not_check(check=check, contract=contract):
+                violated = contract
+                _create_violation_error(contract=contract, resolved_kwargs=resolved_kwargs)
+                break
+""", 2),
+    ],
+    # ---------------------------------------------------------------------------------------------- precondition groups
+    "mutants/c01_skip_last_of_long_group": [
+        (CHK, "        for contract in group:\n", "        for contract in (group[:-1] if len(group) > 2 else group):\n", 2),
+    ],
+    "seeded/C01_async_nonlast_group_error_skipped": [
+        (CHK, "    for group in preconditions:\n        violated = None\n", "    for i, group in enumerate(preconditions):\n        violated = None\n"),
+        (CHK, """            if not_check(check=check, contract=contract):
+                violated = contract
+                break
+""", """            if not_check(check=check, contract=contract):
+                # Only the violation of the last group is ever reported to the caller. Spare the book-keeping
+                # for the preceding groups.
+                if i == len(preconditions) - 1:
+                    violated = contract
+                break
+"""),
+    ],
+    "seeded/C04_r3_async_pre_returns_at_first_failed_group": [
+        (CHK, """            if not_check(check=check, contract=contract):
+                violated = contract
+                break
+""", """            if not_check(check=check, contract=contract):
+                return _create_violation_error(
+                    contract=contract, resolved_kwargs=resolved_kwargs
+                )
+"""),
+    ],
+    "seeded/C13_async_pre_returns_at_first_failed_group": [
+        (CHK, """            if not_check(check=check, contract=contract):
+                violated = contract
+                break
+""", """            if not_check(check=check, contract=contract):
+                violated = contract
+
+                return _create_violation_error(
+                    contract=violated, resolved_kwargs=resolved_kwargs
+                )
+"""),
+    ],
+    "seeded/C16_async_plain_conditions_sorted_first": [
+        (CHK, """async def _assert_preconditions_async(
+""", """def _is_coroutine_condition(contract: Contract) -> bool:
+    \"\"\"Check whether the condition of the contract has to be awaited.\"\"\"
+    return inspect.iscoroutinefunction(contract.condition)
+
+
+async def _assert_preconditions_async(
+"""),
+        (CHK, "        for contract in group:\n", """        # Check the plain conditions before the coroutine functions: they are cheap and spare us the suspension
+        # of the caller if the group is violated anyhow.
+        for contract in sorted(group, key=_is_coroutine_condition):
+"""),
+        (CHK, "    for contract in postconditions:\n", """    # Check the plain conditions before the coroutine functions: they are cheap and spare us the suspension
+    # of the caller if a postcondition is violated anyhow.
+    for contract in sorted(postconditions, key=_is_coroutine_condition):
+"""),
+    ],
+    "seeded/C16_r3_satisfied_group_moved_to_front": [
+        (CHK, "    for group in preconditions:\n        violated = None\n", "    for i, group in enumerate(preconditions):\n        violated = None\n", "all"),
+        (CHK, """        if violated is None:
+            break
+""", """        if violated is None:
+            # The groups are OR'ed and the callers tend to satisfy the very same group over and over again,
+            # so try that group first the next time.
+            if i > 0:
+                preconditions.insert(0, preconditions.pop(i))
+            break
+""", "all"),
+    ],
     # ---------------------------------------------------------------------------------------------- decorator source
     "mutants/c07_fix_under_indented_decorator_line_reverted": [
         (REPR, '''    decorator_text = "".join(
